@@ -17,7 +17,7 @@ import time
 from dataclasses import asdict, dataclass
 from typing import Any
 
-from harness import engine_suites
+from harness import engine_suites, synth_suites
 
 RULE = ("random workflows (1-5 stages, every join type, scripted task outcomes incl. polling / transient / jump / suspend) x "
         "delivery schedules (fifo | random order | random + redelivery of unacknowledged messages | arbitrary incl. early re-polls), "
@@ -33,9 +33,15 @@ RULE = ("random workflows (1-5 stages, every join type, scripted task outcomes i
         "THIRD direction (scenario keys S…): the stage still NOT_STARTED with its StartStage row pending and 0/1/2 persistent signals already buffered, K in {1,2,3}; "
         "A = the StartStage delivery with a persistent / transient SignalStage injected at every legal DB-call point (before the claim read, between the read and the "
         "claim UPDATE, between the claim commit and the plan UPDATE, after), and the reverse direction (A = signal, B = StartStage); nested StartStage > signal > signal "
-        "at every legal point of both for one scenario (all such scenarios in the thorough tier, monitors only)")
+        "at every legal point of both for one scenario (all such scenarios in the thorough tier, monitors only). "
+        "PLUS signals for synthetic CHILD stages (harness/synth_suites.py, IMPLEMENTATION-ONLY, no model line): 1-2 top-level stages, one parent with a before- or after-stage whose task "
+        "suspends k in {1,2} times (script U^k S), optionally a sibling child and a child of the other kind; 0-3 persistent / transient signals for that child sent before its parent started, "
+        "before the child started, while it runs, after it suspended, or only once nothing else is deliverable; fifo | random | redelivery | kill of the signal or of the suspending RunTask "
+        "followed by restart + sweep + late redelivery; judged by mon_c18 (unchanged) and the transition-table monitor")
 ASSUMPTIONS = ["delays are abstracted: budget-respecting schedules deliver a delayed message only when no immediate one is pending",
                "per-workflow circuit breaker disabled in the harness (volatile state outside the model)",
+               "child-stage signals: 'explicitly waiting' is the child's own SUSPENDED status (its parent stays RUNNING); a workflow that reaches a final status while the signalled child is SUSPENDED "
+               "and no cancel was accepted is mon_c18's suspended-stage-abandoned (the F46 / F47 regression net)",
                "race suite: Mode B explores the interleavings SQLite's single-writer locking permits at transaction granularity plus all read / CAS windows "
                "(B atomic inside a window of A, nested to depth 2 in the thorough tier), not every statement-level interleaving of free-running workers (harness/modeb.py)",
                "race suite: handler_config.concurrency_max_retries has its default (3); backoff delays are shortened through the engine's own environment knobs",
@@ -43,6 +49,7 @@ ASSUMPTIONS = ["delays are abstracted: budget-respecting schedules deliver a del
                "race suite, StartStage direction: the started stage has predefined tasks, no mutex key, no deferred-choice group, no synthetic stages (zombie re-plan and "
                "claim rows are C04 / C11)"]
 TRUSTED_BASE = ["Engine model (lean/Stab/Model/Engine.lean) is hand-written; tied to handlers/* by the trace differential on generated schedules only",
+                "signals for synthetic child stages: IMPLEMENTATION-ONLY (harness/synth_suites.py), neither Stab.Engine nor Stab.SignalRace has child stages; Mode B races are not run on children",
                 "not modelled: synthetic stages, mutex/deferred choice, OR-split conditions, pause/resume, timeouts, PostgreSQL backend",
                 "SignalRace model (lean/Stab/Model/SignalRace.lean) is hand-written from handlers/signal_stage.py, handlers/run_task/handler.py (_process_result_safely), "
                 "handlers/run_task/result.py (_handle_suspended, _handle_success_like), persistence/sqlite/transaction.py (store_stage CAS), handlers/base.py "
@@ -568,6 +575,8 @@ def run_race(ctx) -> None:
 
 def run(ctx) -> None:
     engine_suites.run_for(ctx, "C18")
+    # signals for synthetic CHILD stages: implementation-only family (monitors on real-engine traces, no model line)
+    synth_suites.run_for(ctx, "C18")
     run_race(ctx)
 
 
@@ -607,6 +616,8 @@ def replay_race(sched: dict) -> dict:
 
 def replay(ctx, body) -> int:
     rp = body.get("replay") or body
+    if synth_suites.is_synth_replay(body):
+        return synth_suites.replay(ctx, body)
     if isinstance(rp, dict) and "modeb" in rp:
         r = replay_race(rp["modeb"])
         s = r["sched"]
